@@ -72,6 +72,8 @@ pub struct World {
     /// every ID key we know about: (public key, who)
     idkeys: Vec<(PublicKey, String)>,
     prev_ids: HashMap<String, KeyIdentifier>,
+    /// serial numbers of the child certificates the addressed CA held before the request being sent
+    known_serials: std::collections::HashSet<String>,
     named_keys: HashMap<String, KeyIdentifier>,
     seen: HashMap<String, u64>,
     last_state: Option<Value>,
@@ -94,7 +96,7 @@ impl World {
         World {
             id: id.to_string(), a, b: None, cfg, signer_a, signer_b: None, offline: BTreeMap::new(),
             slots: vec![], cms: BTreeMap::new(), nonces: Tokens::new("N"), idkeys: vec![],
-            prev_ids: HashMap::new(), named_keys: HashMap::new(), seen: HashMap::new(),
+            prev_ids: HashMap::new(), known_serials: Default::default(), named_keys: HashMap::new(), seen: HashMap::new(),
             last_state: None,
             ta_obs: profile != "cms", cms_obs: profile != "ta", dead: false,
         }
@@ -828,7 +830,17 @@ impl World {
                     let mut ks: Vec<String> = c.issued_certs().iter()
                         .map(|ic| self.key_tok(&ic.cert().subject_key_identifier())).collect();
                     ks.sort();
-                    cl.push(json!({"cls": c.class_name().to_string(), "res": res, "keys": ks}));
+                    // every listed certificate with the resources it carries (oracle: within the class entitlement)
+                    let mut certs = vec![];
+                    for ic in c.issued_certs().iter() {
+                        let k = self.key_tok(&ic.cert().subject_key_identifier());
+                        let rs = rpki::repository::resources::ResourceSet::try_from(ic.cert()).ok();
+                        let r = rs.map(|rs| crate::canon::Canon::default().value(&serde_json::to_value(&rs).unwrap())).unwrap_or(Value::Null);
+                        let fresh = !self.known_serials.contains(&ic.cert().serial_number().to_string());
+                        certs.push(json!([k, r, fresh]));
+                    }
+                    certs.sort_by_key(|c| c.to_string());
+                    cl.push(json!({"cls": c.class_name().to_string(), "res": res, "keys": ks, "certs": certs}));
                 }
                 json!({"t": "listresp", "classes": cl})
             }
@@ -838,7 +850,8 @@ impl World {
                 let issued = r.clone().into_issued();
                 let res_set = rpki::repository::resources::ResourceSet::try_from(issued.cert()).ok();
                 let res = res_set.map(|rs| crate::canon::Canon::default().value(&serde_json::to_value(&rs).unwrap())).unwrap_or(Value::Null);
-                json!({"t": "issueresp", "key": self.key_tok(&issued.cert().subject_key_identifier()), "res": res})
+                let fresh = !self.known_serials.contains(&issued.cert().serial_number().to_string());
+                json!({"t": "issueresp", "key": self.key_tok(&issued.cert().subject_key_identifier()), "res": res, "fresh": fresh})
             }
             P::RevokeResponse(r) => json!({"t": "revokeresp", "key": self.key_tok(r.key()), "cls": r.class_name().to_string()}),
             P::ErrorResponse(e) => json!({"t": "error", "code": e.status()}),
@@ -1227,6 +1240,24 @@ impl World {
                 extra.insert("desc".into(), d);
                 let cm = self.a.krill.ca_manager();
                 let h = CaHandle::from_str(ca).unwrap();
+                // the child certificates this CA holds (issued or suspended) before the request
+                self.known_serials.clear();
+                if let Ok(c) = cm.get_ca(&h) {
+                    let v = serde_json::to_value(&*c).unwrap_or(Value::Null);
+                    if let Some(rcs) = v["resources"].as_object() {
+                        for rc in rcs.values() {
+                            for part in ["issued", "inner", "suspended"] {
+                                if let Some(m) = rc["certificates"].get(part).and_then(|m| m.as_object()) {
+                                    for ic in m.values() {
+                                        if let Ok(ser) = serde_json::from_value::<rpki::repository::x509::Serial>(ic["serial"].clone()) {
+                                            self.known_serials.insert(ser.to_string());
+                                        }
+                                    }
+                                }
+                            }
+                        }
+                    }
+                }
                 let reply = cm.rfc6492(&h, bytes, None, &actor, self.a.krill.runtime())?;
                 let rd = self.describe_6492(&reply, None);
                 let class = match rd["pl"]["t"].as_str() {
